@@ -579,6 +579,14 @@ def run(ctx):
     rule_d(ctx)
     rule_e(ctx)
     rule_f(ctx)
+    # transformation corrections are applied through the shared BaseCorrection workflow (copy / overwrite, per-slice series handling)
+    from . import c10
+    from .common import shared
+
+    def workflow(ctx_):
+        f_, img_b_, sem_ = c10.rule_a(ctx_)
+        c10.rule_c(ctx_, f_, img_b_, sem_)
+    shared(ctx, "C09.e", workflow, why="CoordinateTransformation / TransformationCorrection act on images only through BaseCorrection.__call__")
     # the conversion of pulled-back points to source voxels must be floor based: shared rule C01.d
     from . import c01
 
